@@ -2525,8 +2525,8 @@ def forward_none_tests(stmts, known=None):
                 # arithmetic, displays and constants are not None; calls / subscripts / attributes may be: only trust the safe ones
                 if isinstance(st.value, (ast.BinOp, ast.List, ast.Tuple, ast.Dict, ast.ListComp, ast.Compare)) or isinstance(st.value, ast.Constant):
                     known[nm] = False
-                elif isinstance(st.value, ast.Call) and _nonnull_call(st.value):
-                    known[nm] = False
+                elif isinstance(st.value, (ast.Call, ast.Attribute)) and _nonnull_call(st.value):
+                    known[nm] = False            # (for an attribute: one that every class only ever binds to a dereferenced value)
                 else:
                     known.pop(nm, None)
             elif isinstance(st.value, ast.Name) and st.value.id in known:
